@@ -246,3 +246,867 @@ Proof.
            ++ lia.
            ++ lia.
 Qed.
+
+(* ------------------------------------------------------------------ *)
+(* add-slash: S on candidates filtered by a predicate on the pattern    *)
+(* ------------------------------------------------------------------ *)
+Section Filt.
+  Variable g : bytes -> bool.
+  Definition G (k : cand) : bool := g (pat k).
+
+  Lemma filter_adv_static c cs : adv_static c (filter G cs) = filter G (adv_static c cs).
+  Proof.
+    unfold adv_static. induction cs as [|k cs IH]; simpl; auto.
+    rewrite filter_app, <- IH. destruct (G k) eqn:E; simpl.
+    - f_equal. destruct (toks k) as [|[d|nm|nm] t]; simpl; auto.
+      destruct (Ascii.eqb c d); simpl; auto. unfold G in *. simpl. rewrite E. reflexivity.
+    - destruct (toks k) as [|[d|nm|nm] t]; simpl; auto.
+      destruct (Ascii.eqb c d); simpl; auto. unfold G in *. simpl. rewrite E. reflexivity.
+  Qed.
+  Lemma filter_adv_param cs : adv_param (filter G cs) = filter G (adv_param cs).
+  Proof.
+    unfold adv_param. induction cs as [|k cs IH]; simpl; auto.
+    rewrite filter_app, <- IH. destruct (G k) eqn:E; simpl.
+    - f_equal. destruct (toks k) as [|[d|nm|nm] t]; simpl; auto. unfold G in *. simpl. rewrite E. reflexivity.
+    - destruct (toks k) as [|[d|nm|nm] t]; simpl; auto. unfold G in *. simpl. rewrite E. reflexivity.
+  Qed.
+  Lemma filter_adv_catch cs : adv_catch (filter G cs) = filter G (adv_catch cs).
+  Proof.
+    unfold adv_catch. induction cs as [|k cs IH]; simpl; auto.
+    rewrite filter_app, <- IH. destruct (G k) eqn:E; simpl.
+    - f_equal. destruct (toks k) as [|[d|nm|nm] t]; simpl; auto. unfold G in *. simpl. rewrite E. reflexivity.
+    - destruct (toks k) as [|[d|nm|nm] t]; simpl; auto. unfold G in *. simpl. rewrite E. reflexivity.
+  Qed.
+
+  Lemma leaf_filter_none cs : (forall k, In k cs -> toks k <> []) -> leaf (filter G cs) = None.
+  Proof. intros H. apply StaticEquiv2.leaf_none. intros k Hk. apply filter_In in Hk. apply H. tauto. Qed.
+
+  Lemma fsel_nil_path f cs vals :
+    select (S f) cs [] 0 vals = match leaf cs with Some p => Some (p, rev vals) | None => None end.
+  Proof. reflexivity. Qed.
+
+  Lemma fsel_short f t kt r ch vals : select (S f) (filter G (cands (t :: kt) r ch)) [] 0 vals = None.
+  Proof.
+    rewrite fsel_nil_path, leaf_filter_none; auto.
+    intros k Hk. unfold cands in Hk. apply in_map_iff in Hk. destruct Hk as (k0 & <- & _). simpl. discriminate.
+  Qed.
+
+  Lemma fsel_static f d kt r ch c p' vals :
+    select (S f) (filter G (cands (TStatic d :: kt) r ch)) (c :: p') 0 vals =
+    if Ascii.eqb d c && sbyte c then select f (filter G (cands kt r ch)) p' 0 vals else None.
+  Proof.
+    cbn [select]. rewrite filter_adv_param, filter_adv_catch, filter_adv_static.
+    rewrite adv_param_cands_static, adv_catch_cands_static, adv_static_cands_static.
+    cbn [filter Nat.eqb negb pred]. unfold orelse. rewrite (Ascii.eqb_sym d c).
+    destruct (sbyte c) eqn:Es.
+    - destruct (sbyte_split c Es) as [-> ->]. cbn [orb]. rewrite andb_true_r.
+      destruct (Ascii.eqb c d); [|reflexivity].
+      rewrite match_nil_select. destruct (select f (filter G (cands kt r ch)) p' 0 vals); reflexivity.
+    - rewrite (sbyte_false c Es). rewrite andb_false_r. reflexivity.
+  Qed.
+
+  Lemma fsel_param f nm kt r ch c p' vals :
+    select (S f) (filter G (cands (TParam nm :: kt) r ch)) (c :: p') 0 vals =
+    match seg is_slash (c :: p') with
+    | [] => None
+    | v => select f (filter G (cands kt r ch)) (skipn (List.length v) (c :: p')) 0 (v :: vals)
+    end.
+  Proof.
+    cbn [select]. rewrite filter_adv_param, filter_adv_catch, filter_adv_static.
+    rewrite adv_param_cands_param, adv_catch_cands_param, adv_static_cands_param.
+    cbn [filter Nat.eqb negb]. unfold orelse.
+    assert ((if Ascii.eqb c "{" || Ascii.eqb c "*" then None else @None (bytes * list bytes)) = None) as ->
+      by (destruct (Ascii.eqb c "{" || Ascii.eqb c "*"); reflexivity).
+    change (seg (fun x : ascii => Ascii.eqb x "/") (c :: p')) with (seg is_slash (c :: p')).
+    destruct (filter G (cands kt r ch)) as [|k0 l] eqn:E.
+    - destruct (seg is_slash (c :: p')); [reflexivity|]. rewrite select_nil. reflexivity.
+    - rewrite <- E. destruct (seg is_slash (c :: p')) as [|v0 v]; [reflexivity|].
+      replace (0 - List.length (v0 :: v)) with 0 by lia.
+      destruct (select f (filter G (cands kt r ch)) _ 0 _); reflexivity.
+  Qed.
+
+  Lemma fsel_catch f nm kt r ch c p' vals :
+    select (S f) (filter G (cands (TCatch nm :: kt) r ch)) (c :: p') 0 vals =
+    try_splits (List.length (c :: p')) 1 (c :: p') (fun v rest => select f (filter G (cands kt r ch)) rest 0 (v :: vals)).
+  Proof.
+    cbn [select]. rewrite filter_adv_param, filter_adv_catch, filter_adv_static.
+    rewrite adv_param_cands_catch, adv_catch_cands_catch, adv_static_cands_catch.
+    cbn [filter Nat.eqb negb]. unfold orelse at 1 2.
+    assert ((if Ascii.eqb c "{" || Ascii.eqb c "*" then None else @None (bytes * list bytes)) = None) as ->
+      by (destruct (Ascii.eqb c "{" || Ascii.eqb c "*"); reflexivity).
+    destruct (filter G (cands kt r ch)) as [|k0 l] eqn:E; [|reflexivity].
+    symmetry. apply StaticEquiv2.try_splits_none. intros v rest. apply select_nil.
+  Qed.
+
+  Lemma fbelow_adv pre r ch : NoDup (heads ch) -> (forall x, In x ch -> pwf pre x) ->
+    (forall c, sbyte c = true ->
+       adv_static c (filter G (below r ch)) = match first_child c ch with Some x => filter G (tl_cands x) | None => [] end) /\
+    adv_param (filter G (below r ch)) = match first_child "{" ch with Some y => filter G (tl_cands y) | None => [] end /\
+    adv_catch (filter G (below r ch)) = match first_child "*" ch with Some w => filter G (tl_cands w) | None => [] end.
+  Proof.
+    intros Hnd Hch. split; [|split].
+    - intros c Hc. rewrite filter_adv_static. destruct (adv_own c r) as (Ho1 & _ & _).
+      unfold below. rewrite adv_static_app, Ho1, adv_static_flat. simpl.
+      rewrite (flat_map_first _ tl_cands c ch Hnd); [destruct (first_child c ch); reflexivity|].
+      intros x Hx. eapply adv_static_child; eauto.
+    - rewrite filter_adv_param. destruct (adv_own "a" r) as (_ & Ho2 & _).
+      unfold below. rewrite adv_param_app, Ho2, adv_param_flat. simpl.
+      rewrite (flat_map_first _ tl_cands "{" ch Hnd); [destruct (first_child "{" ch); reflexivity|].
+      intros x Hx. eapply adv_param_child; eauto.
+    - rewrite filter_adv_catch. destruct (adv_own "a" r) as (_ & _ & Ho3).
+      unfold below. rewrite adv_catch_app, Ho3, adv_catch_flat. simpl.
+      rewrite (flat_map_first _ tl_cands "*" ch Hnd); [destruct (first_child "*" ch); reflexivity|].
+      intros x Hx. eapply adv_catch_child; eauto.
+  Qed.
+
+  Lemma fsel_below pre f r ch c p' vals :
+    NoDup (heads ch) -> (forall x, In x ch -> pwf pre x) ->
+    select (S f) (filter G (below r ch)) (c :: p') 0 vals =
+    orelse (if sbyte c then
+              match first_child c ch with Some x => select f (filter G (tl_cands x)) p' 0 vals | None => None end
+            else None)
+      (fun _ =>
+       orelse
+         (match first_child "{" ch with
+          | Some y => match seg is_slash (c :: p') with
+                      | [] => None
+                      | a :: l => select f (filter G (tl_cands y)) (skipn (List.length (a :: l)) (c :: p')) 0 ((a :: l) :: vals)
+                      end
+          | None => None
+          end)
+         (fun _ =>
+          match first_child "*" ch with
+          | Some w => try_splits (List.length (c :: p')) 1 (c :: p')
+                        (fun v rest => select f (filter G (tl_cands w)) rest 0 (v :: vals))
+          | None => None
+          end)).
+  Proof.
+    intros Hnd Hch. cbn [select]. cbn [Nat.eqb negb pred].
+    destruct (fbelow_adv pre r ch Hnd Hch) as (Hstatic & Hparam & Hcatch).
+    rewrite Hcatch, Hparam.
+    change (seg (fun x : ascii => Ascii.eqb x "/") (c :: p')) with (seg is_slash (c :: p')).
+    assert (HB : match match first_child "{" ch with Some y => filter G (tl_cands y) | None => [] end with
+                 | [] => None
+                 | c0 :: l =>
+                     match seg is_slash (c :: p') with
+                     | [] => None
+                     | _ :: _ => select f (c0 :: l) (skipn (List.length (seg is_slash (c :: p'))) (c :: p'))
+                                   (0 - List.length (seg is_slash (c :: p'))) (seg is_slash (c :: p') :: vals)
+                     end
+                 end =
+                 match first_child "{" ch with
+                 | Some y => match seg is_slash (c :: p') with
+                             | [] => None
+                             | a :: l => select f (filter G (tl_cands y)) (skipn (List.length (a :: l)) (c :: p')) 0 ((a :: l) :: vals)
+                             end
+                 | None => None
+                 end).
+    { destruct (first_child "{" ch) as [y|]; [|reflexivity].
+      destruct (seg is_slash (c :: p')) as [|a l0].
+      - destruct (filter G (tl_cands y)); reflexivity.
+      - replace (0 - List.length (a :: l0)) with 0 by lia.
+        destruct (filter G (tl_cands y)) eqn:E; [rewrite select_nil; reflexivity|reflexivity]. }
+    assert (HC : match match first_child "*" ch with Some w => filter G (tl_cands w) | None => [] end with
+                 | [] => None
+                 | c0 :: l => try_splits (List.length (c :: p')) 1 (c :: p')
+                                (fun v rest => select f (c0 :: l) rest 0 (v :: vals))
+                 end =
+                 match first_child "*" ch with
+                 | Some w => try_splits (List.length (c :: p')) 1 (c :: p')
+                               (fun v rest => select f (filter G (tl_cands w)) rest 0 (v :: vals))
+                 | None => None
+                 end).
+    { destruct (first_child "*" ch) as [w|]; [|reflexivity].
+      destruct (filter G (tl_cands w)) eqn:E; [|reflexivity].
+      symmetry. apply StaticEquiv2.try_splits_none. intros v rest. apply select_nil. }
+    rewrite HB, HC. clear HB HC.
+    destruct (sbyte c) eqn:Es.
+    - destruct (sbyte_split c Es) as [-> ->]. cbn [orb].
+      rewrite (Hstatic c Es). destruct (first_child c ch) as [x|]; [|reflexivity].
+      rewrite match_nil_select. reflexivity.
+    - rewrite (sbyte_false c Es). reflexivity.
+  Qed.
+
+  Lemma leaf_fbelow pre r ch : (forall x, In x ch -> pwf pre x) ->
+    leaf (filter G (below r ch)) = match r with Some rt => if g (rpat rt) then Some (rpat rt) else None | None => None end.
+  Proof.
+    intros Hch. unfold below. rewrite filter_app.
+    assert (Hc : leaf (filter G (flat_map cands_of ch)) = None).
+    { apply leaf_filter_none. intros k0 Hk0. apply in_flat_map in Hk0. destruct Hk0 as (x & Hx & Hk0).
+      apply (cands_of_toks pre x k0 (Hch x Hx) Hk0). }
+    destruct r as [rt|]; simpl; [|exact Hc].
+    unfold G at 1. simpl. destruct (g (rpat rt)); [reflexivity|exact Hc].
+  Qed.
+End Filt.
+
+Notation sse := (G static_slash_end).
+
+Lemma res_of_cor vals a b : res_of vals (cor a b) = orelse (res_of vals a) (fun _ => res_of vals b).
+Proof. destruct a as [[l kvs]|]; reflexivity. Qed.
+Lemma res_of_cwith vals nm v c : res_of vals (cwith [(nm, v)] c) = res_of (v :: vals) c.
+Proof. destruct c as [[l kvs]|]; simpl; auto. rewrite <- app_assoc. reflexivity. Qed.
+
+Lemma hss_skipn_false (p : bytes) j : has_suffix_slash p = false -> has_suffix_slash (skipn j p) = false.
+Proof.
+  intros H. destruct (Nat.lt_ge_cases j (List.length p)) as [Hj|Hj].
+  - rewrite has_suffix_slash_skipn; auto.
+  - rewrite skipn_all2 by lia. reflexivity.
+Qed.
+
+Lemma hss_snoc (a : bytes) : has_suffix_slash (a ++ ["/"]) = true.
+Proof. unfold has_suffix_slash. rewrite rev_app_distr. reflexivity. Qed.
+
+Lemma nostar_app a b : nostar (a ++ b) = nostar a && nostar b.
+Proof. unfold nostar. apply forallb_app. Qed.
+
+Lemma noempty_snoc : forall p, noempty p = true -> has_suffix_slash p = false -> noempty (p ++ ["/"]) = true.
+Proof.
+  induction p as [|c1 p IH]; intros Hn Hs; [reflexivity|].
+  destruct p as [|c2 p].
+  - simpl. unfold has_suffix_slash in Hs. simpl in Hs. rewrite Hs. reflexivity.
+  - change ((c1 :: c2 :: p) ++ ["/"]) with (c1 :: (c2 :: p) ++ ["/"]).
+    cbn [noempty] in Hn |- *. cbn [app]. apply andb_prop in Hn. destruct Hn as [H1 H2].
+    rewrite H1. cbn [andb]. apply IH; auto.
+    rewrite <- (has_suffix_slash_skipn (c1 :: c2 :: p) 1) in Hs by (simpl; lia). exact Hs.
+Qed.
+
+Lemma okpath_snoc p : okpath p = true -> has_suffix_slash p = false -> okpath (p ++ ["/"]) = true.
+Proof.
+  unfold okpath. intros H Hs. apply andb_prop in H. destruct H as [H1 H2].
+  rewrite nostar_app, H1, noempty_snoc; auto.
+Qed.
+
+Lemma orelse_congr {A} (a : option A) f f' : (a = None -> f tt = f' tt) -> orelse a f = orelse a f'.
+Proof. destruct a; simpl; auto. Qed.
+
+(* try_splits on p ++ "/" against the catch-all loop on p *)
+Lemma ts_scant (F : bytes -> bytes -> option (bytes * list bytes)) (sub fin : bytes -> tres) nm vals p :
+  p <> [] -> hd "/" p <> "/" -> has_suffix_slash p = false ->
+  (forall j r c1, skipn j p = "/" :: r -> sub ("/" :: r) = TN c1 ->
+      F (firstn j p) (("/" :: r) ++ ["/"]) = res_of (firstn j p :: vals) c1) ->
+  (forall cf, fin p = TN cf -> F p ["/"] = res_of vals cf) ->
+  F (p ++ ["/"]) [] = None ->
+  forall sf v q i c, p = v ++ q -> i = Nat.max 1 (List.length v) -> q <> [] ->
+    segstart q = true -> noempty q = true -> List.length q < sf ->
+    scant sf sub fin nm v q = TN c ->
+    try_splits (List.length (p ++ ["/"]) + 1 - i) i (p ++ ["/"]) F = res_of vals c.
+Proof.
+  intros Hne Hhd Hsl HF Hfin Hend.
+  set (s := p ++ ["/"]) in *.
+  assert (Hls : List.length s = List.length p + 1) by (unfold s; rewrite app_length; reflexivity).
+  induction sf as [|sf IH]; intros v q i c Hp Hi Hq Hseg Hno Hsf Hsc; [lia|].
+  cbn [scant] in Hsc.
+  assert (Hlen : List.length p = List.length v + List.length q) by (rewrite Hp; apply app_length).
+  assert (Hqpos : 1 <= List.length q) by (destruct q; [congruence|simpl; lia]).
+  destruct (index_byte q "/") as [[|d]|] eqn:Eidx.
+  - destruct q as [|c0 q']; [discriminate|]. simpl in Eidx, Hseg.
+    destruct (Ascii.eqb c0 "/"); [discriminate|]. destruct (index_byte q' "/"); discriminate.
+  - pose proof (index_byte_nth q (S d) Eidx) as [Hnth Hdl].
+    remember (List.length v + S d) as j eqn:Hj.
+    assert (Hskq : exists q'', skipn (S d) q = "/" :: q'').
+    { destruct (skipn (S d) q) as [|x q''] eqn:Eq'; [apply skipn_nil_len in Eq'; lia|].
+      pose proof (skipn_cons_nth _ _ _ _ Eq') as (H1 & _). exists q''. congruence. }
+    destruct Hskq as (q'' & Eq').
+    assert (Hskp : skipn j p = "/" :: q'') by (rewrite Hj, Hp, skipn_app_len; exact Eq').
+    assert (Hfip : firstn j p = v ++ firstn (S d) q) by (rewrite Hj, Hp; apply firstn_app_len).
+    assert (Hjl : j < List.length p) by lia.
+    assert (Hsks : skipn j s = ("/" :: q'') ++ ["/"]).
+    { unfold s. rewrite skipn_app. replace (j - List.length p) with 0 by lia. rewrite Hskp. reflexivity. }
+    assert (Hfis : firstn j s = firstn j p).
+    { unfold s. rewrite firstn_app. replace (j - List.length p) with 0 by lia. simpl. apply app_nil_r. }
+    rewrite Eq' in Hsc.
+    destruct (sub ("/" :: q'')) as [l k|c1] eqn:Es; [discriminate|].
+    apply tcons_TN in Hsc. destruct Hsc as (c2 & Hsc & ->).
+    replace (List.length s + 1 - i) with ((j - i) + S (List.length s - j)) by lia.
+    rewrite ts_skip.
+    2:{ intros t Ht.
+        destruct (index_byte_before q (S d) Eidx (t - List.length v) ltac:(lia)) as (y & r & Hy & Hyn).
+        apply (split_ok_nonslash s t y (r ++ ["/"])); auto.
+        unfold s. rewrite skipn_app. replace (t - List.length p) with 0 by lia. simpl skipn at 2.
+        rewrite Hp. replace t with (List.length v + (t - List.length v)) by lia. rewrite skipn_app_len, Hy. reflexivity. }
+    replace (i + (j - i)) with j by lia.
+    rewrite try_splits_S.
+    assert (Hok : split_ok s j = true).
+    { apply (split_ok_slash s j (q'' ++ ["/"])); auto.
+      - rewrite Hfis, Hfip.
+        destruct (index_byte_before q (S d) Eidx d ltac:(lia)) as (y & r & Hy & Hyn).
+        rewrite last_app_nonnil
+          by (intros Hc; apply (f_equal (@List.length ascii)) in Hc; rewrite firstn_length in Hc; cbn [List.length] in Hc; lia).
+        rewrite (last_firstn_S d q y r "/" Hy). exact Hyn.
+      - unfold s. destruct p; [congruence|]. exact Hhd. }
+    rewrite Hok, Hsks, Hfis. rewrite (HF j q'' c1 Hskp Es). rewrite Hfip.
+    rewrite res_of_cor, res_of_cwith.
+    apply orelse_congr. intros _.
+    assert (Hq2 : q'' <> []).
+    { intros ->. rewrite <- (firstn_skipn (S d) q), Eq', app_assoc in Hp. rewrite Hp, hss_snoc in Hsl. discriminate. }
+    simpl skipn in Hsc.
+    assert (Hqq : q = firstn (S d) q ++ "/" :: q'') by (rewrite <- Eq'; symmetry; apply firstn_skipn).
+    assert (Hl2 : List.length (v ++ firstn (S d) q ++ ["/"]) = S j).
+    { rewrite !app_length, firstn_length. cbn [List.length]. lia. }
+    replace (List.length s - j) with (List.length s + 1 - S j) by lia.
+    apply (IH (v ++ firstn (S d) q ++ ["/"]) q'' (S j) c2); auto.
+    + rewrite Hp. rewrite Hqq at 1. rewrite <- !app_assoc. reflexivity.
+    + rewrite Hl2. lia.
+    + apply (noempty_after_slash ("/" :: q'') q''); auto. rewrite <- Eq'. apply noempty_skipn. exact Hno.
+    + assert (noempty ("/" :: q'') = true) as H by (rewrite <- Eq'; apply noempty_skipn; exact Hno).
+      simpl in H. destruct q''; [congruence|]. apply andb_prop in H. tauto.
+    + assert (List.length ("/" :: q'') = List.length q - S d) by (rewrite <- Eq'; apply skipn_length).
+      simpl in H. lia.
+  - (* no further '/' in p: the value is the rest of p, followed by the added '/' *)
+    replace (List.length s + 1 - i) with ((List.length p - i) + 2) by lia.
+    rewrite ts_skip.
+    2:{ intros t Ht.
+        destruct (index_byte_none_all q Eidx (t - List.length v) ltac:(lia)) as (y & r & Hy & Hyn).
+        apply (split_ok_nonslash s t y (r ++ ["/"])); auto.
+        unfold s. rewrite skipn_app. replace (t - List.length p) with 0 by lia. simpl skipn at 2.
+        rewrite Hp. replace t with (List.length v + (t - List.length v)) by lia. rewrite skipn_app_len, Hy. reflexivity. }
+    replace (i + (List.length p - i)) with (List.length p) by lia.
+    rewrite try_splits_S.
+    assert (Hskl : skipn (List.length p) s = ["/"]) by (unfold s; apply skipn_len_app).
+    assert (Hfil : firstn (List.length p) s = p) by (unfold s; apply firstn_len_app).
+    assert (Hok : split_ok s (List.length p) = true).
+    { apply (split_ok_slash s (List.length p) []); auto.
+      - rewrite Hfil, Hp. rewrite last_app_nonnil by exact Hq.
+        destruct (index_byte_none_all q Eidx (List.length q - 1) ltac:(lia)) as (y & r & Hy & Hyn).
+        assert (r = []) as ->.
+        { apply (f_equal (@List.length ascii)) in Hy. rewrite skipn_length in Hy. simpl in Hy.
+          destruct r; [reflexivity|simpl in Hy; lia]. }
+        rewrite <- (firstn_skipn (List.length q - 1) q), Hy. rewrite last_app_nonnil by discriminate. exact Hyn.
+      - unfold s. destruct p; [congruence|]. exact Hhd. }
+    rewrite Hok, Hskl, Hfil. rewrite <- Hp in Hsc. rewrite (Hfin c Hsc).
+    destruct (res_of vals c) as [x|]; [reflexivity|]. cbn [orelse].
+    rewrite try_splits_S. unfold split_ok. replace (S (List.length p)) with (List.length s) by lia.
+    rewrite skipn_all, firstn_all, Hend. reflexivity.
+Qed.
+
+Lemma sse_render pt lt : forallb tok_ok (pt ++ [lt]) = true ->
+  static_slash_end (render (pt ++ [lt])) = match lt with TStatic c => Ascii.eqb c "/" | _ => false end.
+Proof.
+  intros H. unfold static_slash_end. rewrite tokenize_render by exact H. rewrite rev_app_distr. simpl.
+  destruct lt as [c|nm|nm]; auto.
+  destruct c as [[] [] [] [] [] [] [] []]; reflexivity.
+Qed.
+
+Lemma length_render_one kt : Nat.eqb (List.length (render (TStatic "/" :: kt))) 1 = Spec.is_nil kt.
+Proof.
+  destruct kt as [|t kt]; [reflexivity|]. rewrite !render_cons_len. pose proof (render_tok_len_pos t).
+  simpl. apply Nat.eqb_neq. lia.
+Qed.
+
+Lemma starts_render cc t kt : starts_with cc (render (t :: kt)) = true ->
+  match t with TStatic d => d = cc | TParam _ => cc = "{" | TCatch _ => cc = "*" end.
+Proof.
+  destruct t; cbn [starts_with render flat_map render_tok app]; intros H; apply Ascii.eqb_eq in H; auto.
+Qed.
+
+Lemma kmt_add : forall n pre pt, pwf pre n -> pre = render pt -> forallb tok_ok pt = true ->
+  forall kt d0 pm done fuel p vals c,
+    tokenize (nkey n) = d0 ++ kt -> kt_ok (cend (nroute n) (nchildren n)) kt = true ->
+    List.length p + 2 < fuel -> okpath p = true -> has_suffix_slash p = false ->
+    kmt false n (Kt false n) (sub0t false (nchildren n)) pm done kt p = TN c ->
+    select fuel (filter sse (cands kt (nroute n) (nchildren n))) (p ++ ["/"]) 0 vals = res_of vals c.
+Proof.
+  induction n as [k r ch IH] using node_ind'. intros pre pt Hwf Hpre Hpt.
+  pose proof (pwf_inv _ _ _ _ Hwf) as (kt0 & Hne0 & Hk0 & Hok0 & Hr & Hnd & Hch).
+  rewrite Forall_forall in IH, Hch. cbn [nroute nchildren nkey].
+  set (n := Node k r ch) in *.
+  assert (Htk0 : tokenize k = kt0) by (rewrite Hk0; apply tokenize_render; eapply kt_ok_tok; eauto).
+  assert (Hpre' : pre ++ k = render (pt ++ kt0)) by (rewrite render_app, Hpre, Hk0; reflexivity).
+  assert (Hpt' : forallb tok_ok (pt ++ kt0) = true) by (rewrite forallb_app, Hpt; eapply kt_ok_tok; eauto).
+  (* the own route of a node whose key ends with lt *)
+  assert (Hown : forall x ktx lt rt, In x ch -> tokenize (nkey x) = ktx ++ [lt] -> nroute x = Some rt ->
+            static_slash_end (rpat rt) = match lt with TStatic c => Ascii.eqb c "/" | _ => false end).
+  { intros x ktx lt rt Hx Htx Hrx. pose proof (Hch x Hx) as Hwx. destruct x as [kx rx chx].
+    pose proof (pwf_inv _ _ _ _ Hwx) as (ktx0 & _ & Hkx & Hokx & Hrx' & _). cbn [nkey nroute] in *.
+    rewrite (Hrx' rt Hrx), Hpre', Hkx, <- render_app.
+    assert (ktx0 = ktx ++ [lt]) as -> by (rewrite <- Htx, Hkx; symmetry; apply tokenize_render; eapply kt_ok_tok; eauto).
+    rewrite app_assoc. apply sse_render. rewrite <- app_assoc, forallb_app, Hpt'. eapply kt_ok_tok; eauto. }
+  assert (Hleafsel : forall f cs vals, select (S f) cs [] 0 vals =
+            match leaf cs with Some p => Some (p, rev vals) | None => None end) by reflexivity.
+  induction kt as [|t kt IHkt]; intros d0 pm done fuel p vals c Hd0 Hok Hf Hop Hsl Hm.
+  - (* the key is consumed *)
+    rewrite cands_nil. cbn [kmt] in Hm. unfold Kt, Kt_gen in Hm.
+    destruct fuel as [|f]; [lia|].
+    destruct p as [|c0 p'].
+    + (* the path ends here: add-slash towards a leaf child "/" *)
+      destruct (is_leaf n) eqn:El; [discriminate|]. injection Hm as <-.
+      assert (r = None) as -> by (unfold is_leaf, n in El; simpl in El; destruct r; [discriminate|reflexivity]).
+      cbn [app]. rewrite (fsel_below _ (pre ++ k)) by auto.
+      change (sbyte "/") with true. cbv iota. cbn [seg is_slash]. change (is_slash "/") with true. cbv iota.
+      destruct f as [|f']; [lia|].
+      assert (Hcatch : match first_child "*" ch with
+                       | Some w => try_splits (List.length ["/"]) 1 ["/"]
+                                     (fun v rest => select (S f') (filter (G static_slash_end) (tl_cands w)) rest 0 (v :: vals))
+                       | None => None end = None).
+      { destruct (first_child "*" ch) as [w|] eqn:Ew; [|reflexivity].
+        apply first_child_in in Ew. destruct Ew as [Hw Hsw].
+        cbn [List.length try_splits]. unfold split_ok. cbn [skipn firstn orelse].
+        rewrite Hleafsel. unfold tl_cands.
+        destruct (pwf_tokens _ _ (Hch w Hw)) as (t & ktw & Htk & Hkw & Hokw). rewrite Htk. cbn [tl].
+        assert (exists nm, t = TCatch nm) as (nm & ->).
+        { rewrite Hkw in Hsw. apply starts_render in Hsw. destruct t as [d|nm|nm]; [| |eauto].
+          - pose proof (kt_ok_head_static _ _ _ Hokw) as Hd. subst d. discriminate.
+          - discriminate. }
+        destruct ktw as [|t' ktw'].
+        - rewrite cands_nil, (leaf_fbelow _ (pre ++ k ++ nkey w)).
+          + destruct (nroute w) as [rtw|] eqn:Erw; [|reflexivity].
+            rewrite (Hown w [] (TCatch nm) rtw Hw Htk Erw). reflexivity.
+          + pose proof (Hch w Hw) as Hww. destruct w as [kw rw chw]. apply pwf_inv in Hww.
+            destruct Hww as (_ & _ & _ & _ & _ & _ & Hcw). rewrite Forall_forall in Hcw. cbn [nkey nchildren].
+            rewrite app_assoc. exact Hcw.
+        - rewrite leaf_filter_none; [reflexivity|].
+          intros k1 Hk1. unfold cands in Hk1. apply in_map_iff in Hk1. destruct Hk1 as (k2 & <- & _). simpl. discriminate. }
+      rewrite Hcatch.
+      assert (Hparam : match first_child "{" ch with Some _ => @None (bytes * list bytes) | None => None end = None)
+        by (destruct (first_child "{" ch); reflexivity).
+      rewrite Hparam. cbn [orelse]. unfold child_slash.
+      match goal with |- orelse ?X _ = _ => transitivity X; [destruct X; reflexivity|] end.
+      change (nchildren n) with ch.
+      destruct (first_child "/" ch) as [x|] eqn:Ex; [|reflexivity].
+      apply first_child_in in Ex. destruct Ex as [Hx Hsx].
+      rewrite Hleafsel. unfold tl_cands.
+      destruct (pwf_tokens _ _ (Hch x Hx)) as (t & ktx & Htk & Hkx & Hokx). rewrite Htk. cbn [tl].
+      assert (t = TStatic "/") as ->.
+      { rewrite Hkx in Hsx. apply starts_render in Hsx. destruct t as [d|nm|nm].
+        - congruence.
+        - discriminate.
+        - discriminate. }
+      rewrite Hkx, length_render_one.
+      destruct ktx as [|t' ktx'].
+      * rewrite cands_nil, (leaf_fbelow _ (pre ++ k ++ nkey x)).
+        -- unfold is_leaf. destruct (nroute x) as [rtx|] eqn:Erx; [|reflexivity].
+           rewrite (Hown x [] (TStatic "/") rtx Hx Htk Erx). cbn [Spec.is_nil andb res_of].
+           unfold lpat. rewrite Erx, app_nil_r. reflexivity.
+        -- pose proof (Hch x Hx) as Hxx. destruct x as [kx rx chx]. apply pwf_inv in Hxx.
+           destruct Hxx as (_ & _ & _ & _ & _ & _ & Hcx). rewrite Forall_forall in Hcx. cbn [nkey nchildren].
+           rewrite app_assoc. exact Hcx.
+      * rewrite leaf_filter_none, andb_false_r; [reflexivity|].
+        intros k1 Hk1. unfold cands in Hk1. apply in_map_iff in Hk1. destruct Hk1 as (k2 & <- & _). simpl. discriminate.
+    + (* the path continues: the children, on p ++ "/" *)
+      apply tcons_TN in Hm. destruct Hm as (cb & Hm & ->).
+      assert (Hone : is_one_slash (c0 :: p') = false).
+      { destruct p' as [|c1 p'']; [|reflexivity]. simpl. unfold has_suffix_slash in Hsl. simpl in Hsl. exact Hsl. }
+      rewrite Hone, andb_false_r. cbn [cor].
+      apply talt_TN in Hm. destruct Hm as (c1 & c23 & H1 & Hm & ->).
+      apply talt_TN in Hm. destruct Hm as (c2 & c3 & H2 & H3 & ->).
+      cbn [app]. rewrite (fsel_below _ (pre ++ k)) by auto.
+      rewrite !res_of_cor.
+      assert (Hsl' : has_suffix_slash p' = false \/ p' = []).
+      { destruct p'; [right; reflexivity|left]. rewrite <- (has_suffix_slash_skipn (c0 :: a :: p') 1) in Hsl by (simpl; lia). exact Hsl. }
+      assert (Hsl'' : has_suffix_slash p' = false) by (destruct Hsl' as [H| ->]; [exact H|reflexivity]).
+      unfold m2t_child in H1, H2, H3. change (nchildren n) with ch in H1, H2, H3.
+      (* static child *)
+      assert (Hstat : sbyte c0 = true -> match first_child c0 ch with
+                        | Some x => select f (filter (G static_slash_end) (tl_cands x)) (p' ++ ["/"]) 0 vals
+                        | None => None end = res_of vals c1).
+      { intros Hc. destruct (first_child c0 ch) as [x|] eqn:Ex; [|injection H1 as <-; reflexivity].
+        apply first_child_in in Ex. destruct Ex as [Hx Hsx].
+        destruct (pwf_tokens _ _ (Hch x Hx)) as (t & ktx & Htk & Hkx & Hokx).
+        rewrite m2t_kmt, Htk in H1. unfold tl_cands. rewrite Htk. cbn [tl].
+        rewrite Hkx in Hsx. apply starts_render in Hsx. destruct (sbyte_split c0 Hc) as [Hc1 Hc2].
+        destruct t as [d|nm|nm].
+        - subst d.
+          destruct (kt_ok_cons _ _ _ Hokx) as [[_ Hokx']|(nm & Hbad & _)]; [|discriminate].
+          cbn [kmt] in H1. rewrite Ascii.eqb_refl, Hc in H1. cbn [andb] in H1.
+          eapply (IH x Hx (pre ++ k) (pt ++ kt0) (Hch x Hx) Hpre' Hpt' ktx [TStatic c0] (Some n) _ f p' vals c1); eauto.
+          + simpl in Hf. lia.
+          + eapply okpath_tl; eauto.
+        - subst c0. discriminate.
+        - subst c0. discriminate. }
+      (* parameter child *)
+      assert (Hpar : match first_child "{" ch with
+                     | Some y => match seg is_slash (c0 :: p' ++ ["/"]) with
+                                 | [] => None
+                                 | a :: l => select f (filter (G static_slash_end) (tl_cands y))
+                                               (skipn (List.length (a :: l)) (c0 :: p' ++ ["/"])) 0 ((a :: l) :: vals)
+                                 end
+                     | None => None
+                     end = res_of vals c2).
+      { destruct (first_child "{" ch) as [y|] eqn:Ey; [|injection H2 as <-; reflexivity].
+        apply first_child_in in Ey. destruct Ey as [Hy Hsy].
+        destruct (pwf_tokens _ _ (Hch y Hy)) as (t & kty & Htk & Hky & Hoky).
+        rewrite m2t_kmt, Htk in H2. unfold tl_cands. rewrite Htk. cbn [tl].
+        rewrite Hky in Hsy. apply starts_render in Hsy. destruct t as [d|nm|nm].
+        - subst d. pose proof (kt_ok_head_static _ _ _ Hoky). discriminate.
+        - destruct (kt_ok_cons _ _ _ Hoky) as [[_ Hoky']|(nm' & Hbad & _)]; [|discriminate].
+          cbn [kmt] in H2.
+          change (c0 :: p' ++ ["/"]) with ((c0 :: p') ++ "/" :: []). rewrite seg_app_slash.
+          destruct (seg is_slash (c0 :: p')) as [|v0 vv] eqn:Ev; [injection H2 as <-; reflexivity|].
+          apply twith_TN in H2. destruct H2 as (c' & H2 & ->).
+          assert (Hlen : List.length (v0 :: vv) <= List.length (c0 :: p')).
+          { rewrite <- Ev. clear. induction (c0 :: p') as [|x0 l0 IHl0]; simpl; auto. destruct (is_slash x0); simpl; lia. }
+          rewrite skipn_app. replace (List.length (v0 :: vv) - List.length (c0 :: p')) with 0 by lia. simpl skipn at 2.
+          rewrite res_of_cwith.
+          eapply (IH y Hy (pre ++ k) (pt ++ kt0) (Hch y Hy) Hpre' Hpt' kty [TParam nm] (Some n) _ f _ _ c'); eauto.
+          + rewrite skipn_length. simpl in Hf |- *. lia.
+          + apply okpath_skipn. exact Hop.
+          + apply hss_skipn_false. exact Hsl.
+        - discriminate. }
+      (* catch-all child *)
+      assert (Hcat : match first_child "*" ch with
+                     | Some w => try_splits (List.length (c0 :: p' ++ ["/"])) 1 (c0 :: p' ++ ["/"])
+                                   (fun v rest => select f (filter (G static_slash_end) (tl_cands w)) rest 0 (v :: vals))
+                     | None => None
+                     end = res_of vals c3).
+      { destruct (first_child "*" ch) as [w|] eqn:Ew; [|injection H3 as <-; reflexivity].
+        apply first_child_in in Ew. destruct Ew as [Hw Hsw].
+        destruct (pwf_tokens _ _ (Hch w Hw)) as (t & ktw & Htk & Hkw & Hokw).
+        rewrite m2t_kmt, Htk in H3. unfold tl_cands. rewrite Htk. cbn [tl].
+        rewrite Hkw in Hsw. apply starts_render in Hsw. destruct t as [d|nm|nm].
+        - subst d. pose proof (kt_ok_head_static _ _ _ Hokw). discriminate.
+        - discriminate.
+        - rewrite <- (fsel_catch static_slash_end f nm ktw (nroute w) (nchildren w) c0 (p' ++ ["/"]) vals).
+          apply (IH w Hw (pre ++ k) (pt ++ kt0) (Hch w Hw) Hpre' Hpt' (TCatch nm :: ktw) [] (Some n) [] (S f) (c0 :: p') vals c3); auto. }
+      rewrite Hpar, Hcat.
+      destruct (sbyte c0) eqn:Es.
+      * rewrite (Hstat eq_refl). reflexivity.
+      * unfold orelse at 1.
+        apply sbyte_false in Es. apply orb_prop in Es. destruct Es as [Es|Es]; apply Ascii.eqb_eq in Es; subst c0.
+        -- (* '{' : the parameter child was tried as a static edge first: same result twice *)
+           rewrite H1 in H2. injection H2 as <-.
+           unfold orelse. destruct (res_of vals c1); reflexivity.
+        -- unfold okpath in Hop. simpl in Hop. discriminate.
+  - destruct fuel as [|f]; [lia|].
+    destruct p as [|c0 p'].
+    + (* the path ends inside the key: add-slash when exactly "/" is left on a leaf *)
+      cbn [kmt] in Hm. injection Hm as <-. unfold exh. cbn [app].
+      destruct t as [d|nm|nm].
+      * rewrite fsel_static. change (sbyte "/") with true. rewrite andb_true_r.
+        destruct kt as [|t' kt'].
+        -- cbn [one_slash]. destruct (Ascii.eqb d "/") eqn:Ed; [|rewrite andb_false_r; reflexivity].
+           apply Ascii.eqb_eq in Ed. subst d. rewrite andb_true_r.
+           destruct f as [|f']; [lia|]. rewrite Hleafsel, cands_nil, (leaf_fbelow _ (pre ++ k)) by auto.
+           unfold is_leaf, n. cbn [nroute]. destruct r as [rt|]; [|reflexivity].
+           assert (static_slash_end (rpat rt) = true) as ->.
+           { rewrite (Hr rt eq_refl), Hpre'. rewrite <- Htk0, Hd0, app_assoc.
+             rewrite sse_render; [reflexivity|]. rewrite <- app_assoc, <- Hd0, Htk0. exact Hpt'. }
+           cbn [res_of]. unfold lpat. cbn [nroute]. rewrite app_nil_r. reflexivity.
+        -- cbn [one_slash]. rewrite andb_false_r. destruct (Ascii.eqb d "/"); [|reflexivity].
+           destruct f as [|f']; [lia|]. apply fsel_short.
+      * rewrite fsel_param. cbn [seg]. change (is_slash "/") with true. cbv iota.
+        cbn [one_slash]. rewrite andb_false_r. reflexivity.
+      * cbn [one_slash]. rewrite andb_false_r.
+        rewrite fsel_catch. cbn [List.length try_splits]. unfold split_ok. cbn [skipn firstn orelse].
+        destruct f as [|f']; [lia|].
+        destruct kt as [|t' kt'].
+        -- rewrite Hleafsel, cands_nil, (leaf_fbelow _ (pre ++ k)) by auto.
+           destruct r as [rt|]; [|reflexivity].
+           assert (static_slash_end (rpat rt) = false) as ->; [|reflexivity].
+           rewrite (Hr rt eq_refl), Hpre'. rewrite <- Htk0, Hd0, app_assoc.
+           rewrite sse_render; [reflexivity|]. rewrite <- app_assoc, <- Hd0, Htk0. exact Hpt'.
+        -- rewrite fsel_short. reflexivity.
+    + destruct (kt_ok_cons _ _ _ Hok) as [[Hokt Hok']|(nm' & -> & Hnok & Hok' & Hend)].
+      * assert (Hd0' : tokenize k = (d0 ++ [t]) ++ kt) by (rewrite <- app_assoc; exact Hd0).
+        destruct t as [d|nm|nm]; simpl in Hokt; [| |discriminate]; cbn [kmt app] in Hm |- *.
+        -- rewrite fsel_static.
+           destruct (Ascii.eqb d c0 && sbyte c0); [|injection Hm as <-; reflexivity].
+           apply (IHkt (d0 ++ [TStatic d]) pm (done ++ [TStatic d])); auto.
+           ++ simpl in Hf. lia.
+           ++ eapply okpath_tl; eauto.
+           ++ destruct p'; [reflexivity|]. rewrite <- (has_suffix_slash_skipn (c0 :: a :: p') 1) in Hsl by (simpl; lia). exact Hsl.
+        -- rewrite fsel_param.
+           change (c0 :: p' ++ ["/"]) with ((c0 :: p') ++ "/" :: []). rewrite seg_app_slash.
+           destruct (seg is_slash (c0 :: p')) as [|v0 vv] eqn:Ev; [injection Hm as <-; reflexivity|].
+           apply twith_TN in Hm. destruct Hm as (c' & Hm & ->).
+           assert (Hlen : List.length (v0 :: vv) <= List.length (c0 :: p')).
+           { rewrite <- Ev. clear. induction (c0 :: p') as [|x0 l0 IHl0]; simpl; auto. destruct (is_slash x0); simpl; lia. }
+           cbv zeta. rewrite skipn_app. replace (List.length (v0 :: vv) - List.length (c0 :: p')) with 0 by lia. simpl skipn at 2.
+           rewrite res_of_cwith.
+           apply (IHkt (d0 ++ [TParam nm]) pm (done ++ [TParam nm])); auto.
+           ++ rewrite skipn_length. simpl in Hf |- *. lia.
+           ++ apply okpath_skipn. exact Hop.
+           ++ apply hss_skipn_false. exact Hsl.
+      * (* catch-all *)
+        cbn [kmt] in Hm.
+        destruct kt as [|t' kt'].
+        -- exfalso. destruct (sub0t false ch) as [sb|]; [|discriminate].
+           destruct (scant_fin_TD sb (fun v => TD n [(nm', v)]) nm' ltac:(eauto)
+                       (S (List.length (c0 :: p'))) [] (c0 :: p') ltac:(lia)) as (l & kk & E).
+           rewrite E in Hm. discriminate.
+        -- assert (Hd0' : tokenize k = (d0 ++ [TCatch nm']) ++ t' :: kt') by (rewrite <- app_assoc; exact Hd0).
+           cbn [app]. rewrite fsel_catch.
+           set (s := c0 :: p') in *.
+           assert (Hf2 : 3 <= f) by (unfold s in Hf; simpl in Hf; lia).
+           assert (Hend0 : forall v, select f (filter (G static_slash_end) (cands (t' :: kt') r ch)) [] 0 (v :: vals) = None).
+           { intros v. destruct f as [|f']; [lia|]. apply fsel_short. }
+           destruct (Ascii.eqb_spec c0 "/") as [->|Hcs].
+           ++ (* value starting with '/': nothing *)
+              change ("/" :: p' ++ ["/"]) with (s ++ ["/"]).
+              rewrite ts_slash_start by reflexivity. cbv beta. rewrite Hend0.
+              unfold s in Hm. cbn [scant List.length index_byte] in Hm. change (Ascii.eqb "/" "/") with true in Hm. cbn iota in Hm.
+              cbn [app starts_with] in Hm. change (Ascii.eqb "/" "/") with true in Hm. cbn iota in Hm.
+              injection Hm as <-. reflexivity.
+           ++ change (c0 :: p' ++ ["/"]) with (s ++ ["/"]).
+              replace (List.length (s ++ ["/"])) with (List.length (s ++ ["/"]) + 1 - 1) by lia.
+              assert (Hno : noempty s = true) by (unfold okpath in Hop; apply andb_prop in Hop; tauto).
+              eapply (ts_scant _ _ _ nm' vals s); [discriminate|exact Hcs|exact Hsl| | | | | | | | | |exact Hm];
+                try reflexivity; try discriminate.
+              ** (* a '/' inside the path: sub-lookup on the rest *)
+                 intros j r0 c1 Hj Hs1. cbv beta.
+                 assert (Hl : List.length ("/" :: r0) < List.length s).
+                 { destruct j as [|j]; [unfold s in Hj; simpl in Hj; congruence|].
+                   rewrite <- Hj, skipn_length. unfold s. simpl. lia. }
+                 apply (IHkt (d0 ++ [TCatch nm']) None []); auto.
+                 --- lia.
+                 --- rewrite <- Hj. apply okpath_skipn. exact Hop.
+                 --- rewrite <- Hj. apply hss_skipn_false. exact Hsl.
+              ** (* the whole rest as the value, then the added '/' *)
+                 intros cf Hcf. cbv beta. unfold s in Hcf at 1. cbn [starts_with] in Hcf.
+                 destruct (Ascii.eqb_spec c0 "/") as [|_]; [congruence|]. injection Hcf as <-.
+                 rewrite res_of_cwith.
+                 apply (IHkt (d0 ++ [TCatch nm']) pm (done ++ [TCatch nm']) f [] (s :: vals)); auto; try (simpl; lia).
+              ** cbv beta. apply Hend0.
+              ** unfold s. simpl. destruct (Ascii.eqb_spec c0 "/"); [congruence|reflexivity].
+              ** exact Hno.
+              ** lia.
+Qed.
+
+(* ------------------------------------------------------------------ *)
+(* M2t's candidate = Spec.select_tsr_in                                 *)
+(* ------------------------------------------------------------------ *)
+Lemma ends_with_slash_hss s : ends_with_slash s = has_suffix_slash s.
+Proof.
+  unfold ends_with_slash, has_suffix_slash. destruct (rev s) as [|c r]; auto.
+  destruct c as [[] [] [] [] [] [] [] []]; reflexivity.
+Qed.
+
+Lemma hss_last (s : bytes) : has_suffix_slash s = true -> s = removelast s ++ ["/"].
+Proof.
+  intros H. unfold has_suffix_slash in H. destruct (rev s) as [|c r] eqn:E; [discriminate|].
+  apply Ascii.eqb_eq in H. subst c.
+  assert (s = rev r ++ ["/"]) as Hs by (rewrite <- (rev_involutive s), E; reflexivity).
+  rewrite Hs at 2. rewrite removelast_last. exact Hs.
+Qed.
+
+Lemma okpath_app_l a b : okpath (a ++ b) = true -> okpath a = true.
+Proof.
+  unfold okpath. rewrite nostar_app. intros H. apply andb_prop in H. destruct H as [H1 H2].
+  apply andb_prop in H1. destruct H1 as [H1 _]. rewrite H1. cbn [andb].
+  clear H1. revert H2. induction a as [|c1 a IH]; intros H; [reflexivity|].
+  destruct a as [|c2 a]; [reflexivity|].
+  change ((c1 :: c2 :: a) ++ b) with (c1 :: (c2 :: a) ++ b) in H. cbn [noempty app] in H |- *.
+  apply andb_prop in H. destruct H as [H1 H2]. rewrite H1. cbn [andb]. apply IH. exact H2.
+Qed.
+
+Lemma map_filter_mk g pats : map mk_cand (filter g pats) = filter (G g) (map mk_cand pats).
+Proof.
+  induction pats as [|p l IH]; simpl; auto. unfold G at 1. simpl. destruct (g p); simpl; rewrite IH; reflexivity.
+Qed.
+
+Lemma filter_all {A} (f : A -> bool) l : Forall (fun x => f x = true) l -> filter f l = l.
+Proof. induction 1 as [|x l Hx _ IH]; simpl; auto. rewrite Hx, IH. reflexivity. Qed.
+
+Lemma Forall_filter {A} (P : A -> Prop) f l : Forall P l -> Forall P (filter f l).
+Proof. induction 1 as [|x l Hx _ IH]; simpl; auto. destruct (f x); auto. Qed.
+
+Lemma cands_of_tree t : pwf [] t ->
+  map mk_cand (map rpat (routes_of_node t)) = cands (tokenize (nkey t)) (nroute t) (nchildren t).
+Proof.
+  intros Hwf. rewrite routes_of_node_s, (cands_of_routes t [] [] Hwf eq_refl eq_refl).
+  rewrite (map_ext _ (fun c => c)) by apply prep_nil. rewrite map_id. apply cands_of_tokens.
+Qed.
+
+Theorem m2t_eq_spec_tsr t host path c :
+  pwf [] t -> starts_with "/" (nkey t) = true -> path <> [] -> okpath path = true ->
+  m2t (has_suffix_slash path) None t path = TN c ->
+  select_tsr_in (map rpat (routes_of_node t)) host path false = res_of [] c.
+Proof.
+  intros Hwf Hsl Hne Hok Hm.
+  destruct (pwf_tokens _ _ Hwf) as (t0 & kt & Htk & Hk & Hokt).
+  rewrite m2t_kmt, Htk in Hm.
+  pose proof Hsl as Hsl0. rewrite Hk in Hsl0. apply starts_render in Hsl0.
+  destruct path as [|c0 [|c1 p]]; [congruence| |].
+  - (* a one-byte path never gets a trailing-slash action *)
+    cbn [select_tsr_in]. destruct t0 as [d|nm|nm]; try discriminate. subst d.
+    cbn [kmt] in Hm. change (sbyte c0) with (sbyte c0) in Hm.
+    destruct (Ascii.eqb_spec "/" c0) as [<-|Hc].
+    + change (has_suffix_slash ["/"]) with true in Hm. change (sbyte "/") with true in Hm. cbn [andb] in Hm.
+      destruct kt as [|t' kt'].
+      * cbn [kmt] in Hm. unfold Kt, Kt_gen in Hm. destruct (is_leaf t); [discriminate|]. injection Hm as <-. reflexivity.
+      * cbn [kmt] in Hm. injection Hm as <-. reflexivity.
+    + cbn [andb] in Hm. injection Hm as <-. reflexivity.
+  - set (path := c0 :: c1 :: p) in *.
+    assert (Hsel : select_tsr_in (map rpat (routes_of_node t)) host path false =
+                   if ends_with_slash path then select_in (map rpat (routes_of_node t)) host (removelast path) false
+                   else select_in (filter static_slash_end (map rpat (routes_of_node t))) host (path ++ ["/"]) false)
+      by reflexivity.
+    rewrite Hsel, ends_with_slash_hss. clear Hsel.
+    destruct (has_suffix_slash path) eqn:Ehs.
+    + (* remove-slash *)
+      pose proof (hss_last path Ehs) as Hq. set (q := removelast path) in *.
+      assert (Hqne : q <> []) by (unfold q, path; simpl; destruct p; discriminate).
+      rewrite Hq in Hm. apply (kmt_rm t [] Hwf) in Hm; [|exact Hokt].
+      assert (rmc None [] (t0 :: kt) q = None) as Hr.
+      { unfold rmc. destruct q; [congruence|]. reflexivity. }
+      rewrite Hr in Hm. cbn [cor] in Hm. rewrite <- Htk, <- m2_km in Hm. subst c.
+      apply spec_eq_m2; auto. left. rewrite Hq in Hok. eapply okpath_app_l; eauto.
+    + (* add-slash *)
+      unfold select_in.
+      pose proof (pwf_routes_path t Hwf Hsl) as Hpp.
+      rewrite (filter_all (fun p0 => is_path_pattern p0)) by (apply Forall_filter; exact Hpp).
+      rewrite map_filter_mk, (cands_of_tree t Hwf), Htk.
+      apply (kmt_add t [] [] Hwf eq_refl eq_refl (t0 :: kt) [] None [] _ path [] c); auto.
+      unfold spec_fuel. rewrite app_length. simpl. lia.
+Qed.
+
+(* ------------------------------------------------------------------ *)
+(* what a candidate reports: a registered route with the names of its branch *)
+(* ------------------------------------------------------------------ *)
+Definition early (done : list token) : bool :=
+  match done with [] => true | [TStatic _] => true | _ => false end.
+
+Lemma one_slash_early done : one_slash done = true -> early done = true.
+Proof. destruct done as [|[c|nm|nm] [|t2 l]]; simpl; auto; discriminate. Qed.
+Lemma early_snoc done t : early (done ++ [t]) = true -> early done = true /\ is_wild t = false.
+Proof. destruct done as [|t1 [|t2 l]]; simpl; destruct t; try discriminate; auto; destruct t1; try discriminate; auto; destruct l; discriminate. Qed.
+
+Lemma scant_some sub fin nm : forall sf v q l kvs, scant sf sub fin nm v q = TN (Some (l, kvs)) ->
+  (exists q' kvs' v', sub q' = TN (Some (l, kvs')) /\ kvs = (nm, v') :: kvs') \/ (exists v', fin v' = TN (Some (l, kvs))).
+Proof.
+  induction sf as [|sf IH]; intros v q l kvs H; [discriminate|]. cbn [scant] in H.
+  destruct (index_byte q "/") as [[|d]|].
+  - right. eexists; exact H.
+  - destruct (sub (skipn (S d) q)) as [l' k'|c1] eqn:E; [discriminate|].
+    apply tcons_TN in H. destruct H as (c2 & H & Hc).
+    destruct c1 as [[l1 k1]|]; simpl in Hc.
+    + inversion Hc; subst. left. do 3 eexists. split; [exact E|reflexivity].
+    + subst c2. eapply IH; eauto.
+  - right. eexists; exact H.
+Qed.
+
+Lemma par_cand_some pm done l kvs : par_cand pm done = Some (l, kvs) ->
+  pm = Some l /\ kvs = [] /\ is_leaf l = true /\ early done = true.
+Proof.
+  unfold par_cand. destruct pm as [p|]; [|discriminate].
+  destruct (is_leaf p) eqn:El; [|discriminate]. destruct (one_slash done) eqn:Eo; [|discriminate].
+  simpl. intros [= <- <-]. auto using one_slash_early.
+Qed.
+
+Lemma render_len1_names kt : List.length (render kt) = 1 -> wildcard_names kt = [].
+Proof.
+  destruct kt as [|t [|t2 kt]]; auto.
+  - destruct t as [c|nm|nm]; auto; simpl; rewrite !app_length; simpl; intros; lia.
+  - intros H. pose proof (render_len2 t t2 kt). lia.
+Qed.
+
+Definition cand_ok (n : node) (pre : bytes) (pm : option node) (l : node) (kvs : list kv) : Prop :=
+  (pm = Some l /\ kvs = [] /\ is_leaf l = true) \/ sound_res n pre l kvs.
+
+Lemma m2t_sound sl : forall n pre pm p l kvs, pwf pre n -> m2t sl pm n p = TN (Some (l, kvs)) -> cand_ok n pre pm l kvs.
+Proof.
+  induction n as [k r ch IH] using node_ind'. intros pre pm p l kvs Hwf.
+  pose proof (pwf_inv _ _ _ _ Hwf) as (kt0 & Hne & Hk & Hok & Hr & Hnd & Hch).
+  rewrite Forall_forall in IH, Hch.
+  set (n := Node k r ch) in *.
+  assert (Hself : forall done, k = render done -> is_leaf n = true ->
+            exists rt bt, nroute n = Some rt /\ In rt (routes_s n) /\ rpat rt = pre ++ render (done ++ [] ++ bt) /\
+                          forallb tok_ok bt = true /\ @nil bytes = wildcard_names ([] ++ bt)).
+  { intros done Hd Hl. unfold is_leaf, n in Hl. cbn [nroute] in Hl. destruct r as [rt|]; [|discriminate].
+    exists rt, []. unfold n. simpl. rewrite app_nil_r. repeat split; auto. rewrite (Hr rt eq_refl), Hd. reflexivity. }
+  assert (Hchild : forall x pm' q l kvs, In x ch -> m2t sl pm' x q = TN (Some (l, kvs)) -> pm' = Some n \/ pm' = None ->
+            (pm' = Some n /\ l = n /\ kvs = [] /\ is_leaf n = true) \/
+            exists rt bt, nroute l = Some rt /\ In rt (routes_s n) /\ rpat rt = (pre ++ k) ++ render bt /\
+                          forallb tok_ok bt = true /\ map fst kvs = wildcard_names bt).
+  { intros x pm' q l0 kvs0 Hx Hm Hpm.
+    destruct (IH x Hx (pre ++ k) pm' q l0 kvs0 (Hch x Hx) Hm) as [(H1 & H2 & H3)|(rt & bt & H1 & H2 & H3 & H4 & H5)].
+    - left. destruct Hpm as [->| ->]; [|discriminate]. inversion H1; subst. auto.
+    - right. exists rt, bt. repeat split; auto. unfold n. cbn [routes_s]. apply in_or_app. right. apply in_flat_map. exists x; auto. }
+  assert (Hgen : forall kt dk done pm p l kvs, k = render (dk ++ kt) -> forallb tok_ok dk = true ->
+            kt_ok (cend r ch) kt = true ->
+            kmt sl n (Kt sl n) (sub0t sl ch) pm done kt p = TN (Some (l, kvs)) ->
+            (pm = Some l /\ kvs = [] /\ is_leaf l = true /\ early done = true) \/
+            exists rt bt, nroute l = Some rt /\ In rt (routes_s n) /\ rpat rt = pre ++ render (dk ++ kt ++ bt) /\
+                          forallb tok_ok bt = true /\ map fst kvs = wildcard_names (kt ++ bt)).
+  { induction kt as [|t kt IHkt]; intros dk done pm0 p0 l0 kvs0 Hkd Hdone Hokt Hm.
+    - cbn [kmt] in Hm. rewrite app_nil_r in Hkd. unfold Kt, Kt_gen in Hm. destruct p0 as [|c p'].
+      + destruct (is_leaf n) eqn:El; [discriminate|]. injection Hm as Hm. destruct sl.
+        * left. apply par_cand_some in Hm. tauto.
+        * right. unfold child_slash in Hm. change (nchildren n) with ch in Hm.
+          destruct (first_child "/" ch) as [x|] eqn:Ex; [|discriminate].
+          destruct (is_leaf x && Nat.eqb (List.length (nkey x)) 1) eqn:Ec; [|discriminate].
+          inversion Hm; subst l0 kvs0. apply andb_prop in Ec. destruct Ec as [Elx Elen]. apply Nat.eqb_eq in Elen.
+          apply first_child_in in Ex. destruct Ex as [Hx _].
+          pose proof (Hch x Hx) as Hwx. destruct x as [kx rx chx]. pose proof (pwf_inv _ _ _ _ Hwx) as (ktx & _ & Hkx & Hokx & Hrx & _).
+          unfold is_leaf in Elx. cbn [nroute nkey] in *. destruct rx as [rtx|]; [|discriminate].
+          exists rtx, ktx. repeat split; auto.
+          -- unfold n. cbn [routes_s]. apply in_or_app. right. apply in_flat_map. exists (Node kx (Some rtx) chx). split; auto. simpl. auto.
+          -- rewrite (Hrx rtx eq_refl), Hkd, Hkx. rewrite app_nil_l, render_app, app_assoc. reflexivity.
+          -- eapply kt_ok_tok; eauto.
+          -- simpl. symmetry. apply render_len1_names. rewrite <- Hkx. exact Elen.
+      + apply tcons_TN in Hm. destruct Hm as (cb & Hm & Hc).
+        apply talt_TN in Hm. destruct Hm as (c1 & c23 & H1 & Hm & ->).
+        apply talt_TN in Hm. destruct Hm as (c2 & c3 & H2 & H3 & ->).
+        destruct (is_none (first_child c (nchildren n)) && is_leaf n && is_one_slash (c :: p')) eqn:E4; cbn [cor] in Hc.
+        * inversion Hc; subst l0 kvs0. right. apply andb_prop in E4. destruct E4 as [E4 _]. apply andb_prop in E4. destruct E4 as [_ El].
+          destruct (Hself dk Hkd El) as (rt & bt & Hx). exists rt, bt. exact Hx.
+        * assert (Hx : exists x, In x ch /\ m2t sl (Some n) x (c :: p') = TN (Some (l0, kvs0))).
+          { unfold m2t_child in H1, H2, H3. change (nchildren n) with ch in H1, H2, H3.
+            destruct c1 as [[l1 v1]|]; cbn [cor] in Hc.
+            - inversion Hc; subst. destruct (first_child c ch) as [x|] eqn:Ex; [|discriminate]. exists x. split; auto. apply first_child_in in Ex; tauto.
+            - destruct c2 as [[l1 v1]|]; cbn [cor] in Hc.
+              + inversion Hc; subst. destruct (first_child "{" ch) as [x|] eqn:Ex; [|discriminate]. exists x. split; auto. apply first_child_in in Ex; tauto.
+              + subst c3. destruct (first_child "*" ch) as [x|] eqn:Ex; [|discriminate]. exists x. split; auto. apply first_child_in in Ex; tauto. }
+          destruct Hx as (x & Hx & Hmx). right.
+          destruct (Hchild x _ _ _ _ Hx Hmx (or_introl eq_refl)) as [(_ & -> & -> & El)|(rt & bt & H4 & H5 & H6 & H7 & H8)].
+          -- destruct (Hself dk Hkd El) as (rt & bt & Hy). exists rt, bt. exact Hy.
+          -- exists rt, bt. simpl. repeat split; auto. rewrite H6, Hkd, render_app, app_assoc. reflexivity.
+    - destruct p0 as [|c p'].
+      + cbn [kmt] in Hm. injection Hm as Hm. unfold exh in Hm. destruct sl.
+        * left. apply par_cand_some in Hm. exact Hm.
+        * destruct (is_leaf n && one_slash (t :: kt)) eqn:E; [|discriminate]. inversion Hm; subst l0 kvs0.
+          apply andb_prop in E. destruct E as [El Eo]. right.
+          destruct (Hself (dk ++ t :: kt) Hkd El) as (rt & bt & H1 & H2 & H3 & H4 & H5). exists rt, bt.
+          repeat split; auto.
+          -- rewrite H3. rewrite <- !app_assoc. reflexivity.
+          -- simpl in H5. rewrite wildcard_names_app, <- H5, app_nil_r.
+             destruct t as [c0|nm|nm]; try discriminate. destruct kt; [reflexivity|discriminate].
+      + destruct (kt_ok_cons _ _ _ Hokt) as [[Hokt1 Hokt2]|(nm & -> & Hnm & Hokt2 & Hend)].
+        * assert (Hd1 : forallb tok_ok (dk ++ [t]) = true)
+            by (rewrite forallb_app, Hdone; simpl; rewrite (ptok_tok _ Hokt1); reflexivity).
+          assert (Hk1 : k = render ((dk ++ [t]) ++ kt)) by (rewrite <- app_assoc; exact Hkd).
+          destruct t as [d|nm|nm]; simpl in Hokt1; try discriminate; cbn [kmt] in Hm.
+          -- destruct (Ascii.eqb d c && sbyte c); [|discriminate].
+             destruct (IHkt (dk ++ [TStatic d]) _ _ _ _ _ Hk1 Hd1 Hokt2 Hm) as [(H1 & H2 & H3 & H4)|(rt & bt & H1 & H2 & H3 & H4 & H5)].
+             ++ left. apply early_snoc in H4. tauto.
+             ++ right. exists rt, bt. repeat split; auto. rewrite H3, <- app_assoc. reflexivity.
+          -- destruct (seg is_slash (c :: p')) as [|v0 vv]; [discriminate|].
+             apply twith_TN in Hm. destruct Hm as (c' & Hm & Hc). destruct c' as [[l1 kvs1]|]; [|discriminate].
+             simpl in Hc. inversion Hc; subst l0 kvs0.
+             destruct (IHkt (dk ++ [TParam nm]) _ _ _ _ _ Hk1 Hd1 Hokt2 Hm) as [(H1 & H2 & H3 & H4)|(rt & bt & H1 & H2 & H3 & H4 & H5)].
+             ++ apply early_snoc in H4. destruct H4 as [_ H4]. discriminate.
+             ++ right. exists rt, bt. repeat split; auto.
+                ** rewrite H3, <- app_assoc. reflexivity.
+                ** simpl. f_equal. exact H5.
+        * assert (Hd1 : forallb tok_ok (dk ++ [TCatch nm]) = true)
+            by (rewrite forallb_app, Hdone; simpl; rewrite Hnm; reflexivity).
+          assert (Hk1 : k = render ((dk ++ [TCatch nm]) ++ kt)) by (rewrite <- app_assoc; exact Hkd).
+          cbn [kmt] in Hm. right. destruct kt as [|t' kt'].
+          -- destruct (sub0t sl ch) as [sb|] eqn:Esb; [|discriminate].
+             apply scant_some in Hm. destruct Hm as [(q' & kvs' & v' & Hsb & ->)|(v' & Hfin)]; [|discriminate].
+             destruct ch as [|c0 ch']; [discriminate|]. cbn [sub0t] in Esb. inversion Esb; subst sb.
+             destruct (Hchild c0 _ _ _ _ (or_introl eq_refl) Hsb (or_intror eq_refl)) as [(Hbad & _)|(rt1 & bt & H1 & H2 & H3 & H4 & H5)]; [discriminate|].
+             exists rt1, bt. repeat split; auto.
+             ++ rewrite H3, Hkd. rewrite !render_app. rewrite <- !app_assoc. reflexivity.
+             ++ simpl. f_equal. exact H5.
+          -- apply scant_some in Hm. destruct Hm as [(q' & kvs' & v' & Hsb & ->)|(v' & Hfin)].
+             ++ destruct (IHkt (dk ++ [TCatch nm]) _ _ _ _ _ Hk1 Hd1 Hokt2 Hsb) as [(H1 & _)|(rt & bt & H1 & H2 & H3 & H4 & H5)]; [discriminate|].
+                exists rt, bt. repeat split; auto.
+                ** rewrite H3, <- app_assoc. reflexivity.
+                ** simpl. f_equal. exact H5.
+             ++ destruct (starts_with "/" v'); [discriminate|]. injection Hfin as Hfin.
+                unfold exh, par_cand in Hfin. rewrite one_slash_snoc_catch in Hfin.
+                destruct sl.
+                ** destruct pm0 as [pp|]; [rewrite andb_false_r in Hfin|]; discriminate.
+                ** destruct (is_leaf n && one_slash (t' :: kt')) eqn:E; [|discriminate]. simpl in Hfin. inversion Hfin; subst l0 kvs0.
+                   apply andb_prop in E. destruct E as [El Eo].
+                   destruct (Hself (dk ++ TCatch nm :: t' :: kt') Hkd El) as (rt & bt & H1 & H2 & H3 & H4 & H5). exists rt, bt.
+                   repeat split; auto.
+                   --- rewrite H3. rewrite <- !app_assoc. reflexivity.
+                   --- simpl in H5. simpl. f_equal. rewrite wildcard_names_app, <- H5, app_nil_r.
+                       destruct t' as [c0|nm0|nm0]; try discriminate. destruct kt'; [reflexivity|discriminate]. }
+  intros Hm. unfold n in Hm. rewrite m2t_eq in Hm. fold n in Hm.
+  rewrite Hk, tokenize_render in Hm by (eapply kt_ok_tok; eauto).
+  destruct (Hgen kt0 [] [] pm p l kvs Hk eq_refl Hok Hm) as [(H1 & H2 & H3 & _)|(rt & bt & H1 & H2 & H3 & H4 & H5)].
+  - left. auto.
+  - right. exists rt, (kt0 ++ bt). repeat split; auto. rewrite forallb_app, (kt_ok_tok _ _ Hok), H4. reflexivity.
+Qed.
